@@ -15,9 +15,13 @@ RpOK(c, e) == (Supported(c) /\ ~c.bad) => e.rp      \* what was written is CSV a
 \* e.i = 0: the only call of the case; e.i >= 1: i-th call with the SAME codec value (c.calls[i] is its input)
 Cfg(c, e) == IF e.i = 0 THEN c ELSE CallCfg(c, e.i)
 
-XAllowed(c, e) == e.ev = "csv" /\ (e.i > 0 => e.i <= Len(c.calls)) /\ Allowed(Cfg(c, e), e) /\ RpOK(Cfg(c, e), e)
+\* "stress": c.stress.calls repetitions of the case's call, aggregated (CSVCodec!StressAllowed)
+XAllowed(c, e) ==
+  IF e.ev = "stress" THEN "stress" \in DOMAIN c /\ ~e.panic /\ StressAllowed(c, c.stress.calls, e)
+  ELSE e.ev = "csv" /\ (e.i > 0 => e.i <= Len(c.calls)) /\ Allowed(Cfg(c, e), e) /\ RpOK(Cfg(c, e), e)
 
-XWhy(c, e) == IF e.ev # "csv" THEN "unknown-event"
+XWhy(c, e) == IF e.ev = "stress" THEN (IF e.other > 0 THEN "not-the-parsers-error" ELSE "stress-family-outcome")
+              ELSE IF e.ev # "csv" THEN "unknown-event"
               ELSE IF ~Allowed(Cfg(c, e), e)
                    THEN (IF e.i > 1 /\ WhyNot(Cfg(c, e), e) \in {"records-differ", "unexpected-error"}
                          THEN "codec-reuse-differs-from-first-call" ELSE WhyNot(Cfg(c, e), e))
